@@ -1,8 +1,11 @@
 (* C14 — model of what a simulation may write, and where: the scene's objects, their dynamic
-   proxies, per-scenario override tables, the veneer's "simulation in progress" state.
-   Anchors: simulators.py Simulation.__init__ (try/finally), object_types.py
+   proxies, the TREE of running scenarios each with its override table, objects created during the
+   run, the behaviours' global namespace, the veneer's "simulation in progress" state.
+   Anchors: simulators.py Simulation.__init__ (try/finally), _createObject; object_types.py
    enable/disableDynamicProxyFor, Object.__setattr__/__getattribute__, Constructible._override/
-   _revert, dynamics/scenarios.py DynamicScenario._override/_stop, veneer.py begin/endSimulation.
+   _revert; dynamics/scenarios.py DynamicScenario._override/_stop/_invokeInner; veneer.py
+   begin/endSimulation (behaviorNamespaces), override (-> currentScenario), start/endScenario;
+   requirements.py closure (rebinding of globals before every evaluation).
    Definitions only. *)
 From Coq Require Import ZArith List Bool Arith.
 Import ListNotations.
@@ -11,6 +14,8 @@ Open Scope Z_scope.
 Definition view := nat -> nat -> Z.                 (* object -> property -> value *)
 Definition upd (v:view) (o p:nat) (x:Z) : view :=
   fun o' p' => if Nat.eqb o' o && Nat.eqb p' p then x else v o' p'.
+Definition set_row (v:view) (o:nat) (vals:list Z) : view :=
+  fun o' p' => if Nat.eqb o' o then nth p' vals 0 else v o' p'.
 
 (* a scenario's _overrides table: (object, property) -> value before its first override.
    Python dicts have unique keys; [setdefault] keeps the oldest value. *)
@@ -32,90 +37,171 @@ Definition setdefault_first_only (t:saved) (o p:nat) (x:Z) : saved :=
 Definition revert (t:saved) (v:view) : view :=
   fold_right (fun '(o, p, x) acc => upd acc o p x) v t.
 
+(* a running scenario: its identity, the scenario whose compose block invoked it, its table *)
+Record scen := { sid : nat; spar : nat; stab : saved }.
+
 Record state := {
-  orig : view;                      (* the objects of the Scene *)
+  orig : view;                      (* the objects themselves (scene objects; creation values of dynamic ones) *)
   proxy : option view;              (* Some = dynamic proxies enabled (simulation running) *)
-  stack : list saved;               (* running scenarios, innermost first *)
-  active : bool                     (* veneer.currentSimulation is set *)
+  running : list scen;              (* veneer.runningScenarios, NEWEST FIRST; scenario 0 is the top-level one *)
+  toptab : saved;                   (* scene.dynamicScenario._overrides: the top-level scenario object outlives the run *)
+  active : bool;                    (* veneer.currentSimulation is set *)
+  ns : nat -> Z;                    (* the module namespace the behaviours read their globals from *)
+  ns_orig : nat -> Z;               (* Scene.behaviorNamespaces: copy taken when the scene was made *)
+  ns_samp : nat -> Z                (* Scene.behaviorNamespaces: the sampled values *)
 }.
 
 Definition read (s:state) : view := match proxy s with Some v => v | None => orig s end.
-Definition write (s:state) (o p:nat) (x:Z) : state :=
-  match proxy s with
-  | Some v => {| orig := orig s; proxy := Some (upd v o p x); stack := stack s; active := active s |}
-  | None => {| orig := upd (orig s) o p x; proxy := None; stack := stack s; active := active s |}
-  end.
 Definition with_view (s:state) (f:view -> view) : state :=
   match proxy s with
-  | Some v => {| orig := orig s; proxy := Some (f v); stack := stack s; active := active s |}
-  | None => {| orig := f (orig s); proxy := None; stack := stack s; active := active s |}
+  | Some v => {| orig := orig s; proxy := Some (f v); running := running s; toptab := toptab s; active := active s;
+                 ns := ns s; ns_orig := ns_orig s; ns_samp := ns_samp s |}
+  | None => {| orig := f (orig s); proxy := None; running := running s; toptab := toptab s; active := active s;
+               ns := ns s; ns_orig := ns_orig s; ns_samp := ns_samp s |}
   end.
-Definition set_stack (s:state) (k:list saved) : state :=
-  {| orig := orig s; proxy := proxy s; stack := k; active := active s |}.
+Definition write (s:state) (o p:nat) (x:Z) : state := with_view s (fun v => upd v o p x).
+Definition set_running (s:state) (r:list scen) : state :=
+  {| orig := orig s; proxy := proxy s; running := r; toptab := toptab s; active := active s;
+     ns := ns s; ns_orig := ns_orig s; ns_samp := ns_samp s |}.
+Definition set_toptab (s:state) (t:saved) : state :=
+  {| orig := orig s; proxy := proxy s; running := running s; toptab := t; active := active s;
+     ns := ns s; ns_orig := ns_orig s; ns_samp := ns_samp s |}.
+Definition set_ns (s:state) (n:nat -> Z) : state :=
+  {| orig := orig s; proxy := proxy s; running := running s; toptab := toptab s; active := active s;
+     ns := n; ns_orig := ns_orig s; ns_samp := ns_samp s |}.
+(* new Object during the run: the object comes into existence with its creation values and
+   (Simulation._createObject) gets a proxy copy at once *)
+Definition create (s:state) (o:nat) (vals:list Z) : state :=
+  {| orig := set_row (orig s) o vals;
+     proxy := match proxy s with Some v => Some (set_row v o vals) | None => None end;
+     running := running s; toptab := toptab s; active := active s;
+     ns := ns s; ns_orig := ns_orig s; ns_samp := ns_samp s |}.
+
+Fixpoint table_of (k:nat) (r:list scen) : option saved :=
+  match r with
+  | [] => None
+  | c :: r' => if Nat.eqb (sid c) k then Some (stab c) else table_of k r'
+  end.
+Fixpoint set_table (k:nat) (t:saved) (r:list scen) : list scen :=
+  match r with
+  | [] => []
+  | c :: r' => if Nat.eqb (sid c) k then {| sid := sid c; spar := spar c; stab := t |} :: r'
+               else c :: set_table k t r'
+  end.
+(* DynamicScenario._subScenarios of k, in the order they were started (oldest first) *)
+Definition children (k:nat) (r:list scen) : list nat :=
+  map sid (filter (fun c => Nat.eqb (spar c) k && negb (Nat.eqb (sid c) k)) (rev r)).
 
 Inductive op :=
-| Begin                               (* Simulation.__init__: beginSimulation, proxies enabled, top scenario started *)
-| Write (o p:nat) (x:Z)               (* any assignment to an object's attribute (behavior, simulator read-back) *)
-| Override (o p:nat) (x:Z)            (* override o with p x, in the innermost running scenario *)
-| Push                                (* a sub-scenario starts *)
-| Pop                                 (* the innermost scenario stops: its overrides are reverted *)
-| Finish.                             (* end of the simulation: normal completion or any exception *)
+| Begin                               (* Simulation.__init__: beginSimulation, proxies enabled, top scenario (0) started *)
+| Write (o p:nat) (x:Z)               (* any assignment to an object's attribute (behavior, compose block, simulator read-back) *)
+| Override (k:nat) (o p:nat) (x:Z)    (* override o with p x while scenario k is veneer.currentScenario
+                                         (k = 0 for every override executed by a behaviour or monitor) *)
+| Start (k par:nat)                   (* sub-scenario k (a fresh instance) is invoked by the compose block of par *)
+| Stop (k:nat)                        (* scenario k stops: its running sub-scenarios first (oldest first), then its own table *)
+| StopAll                             (* "for scenario in reversed(runningScenarios): scenario._stop()" *)
+| Create (o:nat) (vals:list Z)        (* new Object in the setup block of a sub-scenario *)
+| NsWrite (n:nat) (x:Z)               (* a behaviour assigns a global of its module *)
+| NsBind (l:list nat)                 (* a requirement / record / terminate-when closure is evaluated: the globals
+                                         it mentions are rebound to the scene's sample first *)
+| Finish.                             (* end of the simulation: the finally block, whatever happened *)
 
 (* variants of the code: the repaired one is [fixed] *)
-Record variant := { proxies_dropped_first : bool;   (* pre-fix finally block: disable proxies, then stop scenarios *)
-                    first_only : bool }.             (* pre-fix _override: remember only the first statement per object *)
-Definition fixed := {| proxies_dropped_first := false; first_only := false |}.
+Record variant := { proxies_dropped_first : bool;   (* pre-fix finally block: disable proxies, then stop scenarios (F18) *)
+                    first_only : bool;               (* pre-fix _override: remember only the first statement per object (F6) *)
+                    own_before_subs : bool;          (* _stop reverting its own table before stopping the sub-scenarios *)
+                    stale_top : bool }.              (* the top-level scenario's _overrides dict is never emptied *)
+Definition fixed := {| proxies_dropped_first := false; first_only := false; own_before_subs := false; stale_top := false |}.
 
-Definition stop_all (s:state) : state :=
-  set_stack (with_view s (fun v => fold_left (fun acc t => revert t acc) (stack s) v)) [].
+Fixpoint stop_order (V:variant) (fuel:nat) (r:list scen) (k:nat) : list nat :=
+  match fuel with
+  | O => [k]
+  | S f => let subs := flat_map (stop_order V f r) (children k r) in
+           if own_before_subs V then k :: subs else subs ++ [k]
+  end.
+Definition revert_ids (r:list scen) (ids:list nat) (v:view) : view :=
+  fold_left (fun acc id => match table_of id r with Some t => revert t acc | None => acc end) ids v.
+Definition remove_ids (ids:list nat) (r:list scen) : list scen :=
+  filter (fun c => negb (existsb (Nat.eqb (sid c)) ids)) r.
+Definition stop (V:variant) (k:nat) (s:state) : state :=
+  match table_of k (running s) with
+  | None => s
+  | Some _ =>
+      let r := running s in
+      let ord := stop_order V (length r) r k in
+      let tt := match table_of 0%nat r with
+                | Some t => if existsb (Nat.eqb 0%nat) ord then t else toptab s
+                | None => toptab s end in
+      set_toptab (set_running (with_view s (revert_ids r ord)) (remove_ids ord r)) tt
+  end.
+Definition stop_all (V:variant) (s:state) : state :=
+  fold_left (fun acc c => stop V (sid c) acc) (running s) s.
 Definition drop_proxies (s:state) : state :=
-  {| orig := orig s; proxy := None; stack := stack s; active := active s |}.
+  {| orig := orig s; proxy := None; running := running s; toptab := toptab s; active := active s;
+     ns := ns s; ns_orig := ns_orig s; ns_samp := ns_samp s |}.
 
 Definition step (V:variant) (s:state) (o:op) : state :=
   match o with
   | Begin => if active s then s
-             else {| orig := orig s; proxy := Some (orig s); stack := [[]]; active := true |}
+             else {| orig := orig s; proxy := Some (orig s);
+                     running := [{| sid := 0%nat; spar := 0%nat; stab := if stale_top V then toptab s else [] |}];
+                     toptab := toptab s; active := true;
+                     ns := ns_samp s; ns_orig := ns_orig s; ns_samp := ns_samp s |}
   | Write ob p x => write s ob p x
-  | Override ob p x =>
-      match stack s with
-      | top :: rest =>
+  | Override k ob p x =>
+      match table_of k (running s) with
+      | Some t =>
           let old := read s ob p in
-          let top' := if first_only V then setdefault_first_only top ob p old else setdefault top ob p old in
-          write (set_stack s (top' :: rest)) ob p x
-      | [] => s
+          let t' := if first_only V then setdefault_first_only t ob p old else setdefault t ob p old in
+          write (set_running s (set_table k t' (running s))) ob p x
+      | None => write s ob p x
       end
-  | Push => set_stack s ([] :: stack s)
-  | Pop => match stack s with
-           | top :: rest => set_stack (with_view s (revert top)) rest
-           | [] => s
-           end
+  | Start k par => match table_of k (running s) with
+                   | Some _ => s
+                   | None => set_running s ({| sid := k; spar := par; stab := [] |} :: running s)
+                   end
+  | Stop k => stop V k s
+  | StopAll => stop_all V s
+  | Create ob vals => create s ob vals
+  | NsWrite n x => set_ns s (fun n' => if Nat.eqb n' n then x else ns s n')
+  | NsBind l => set_ns s (fun n' => if existsb (Nat.eqb n') l then ns_samp s n' else ns s n')
   | Finish =>
-      let s1 := if proxies_dropped_first V then stop_all (drop_proxies s) else drop_proxies (stop_all s) in
-      {| orig := orig s1; proxy := None; stack := []; active := false |}
+      let s1 := if proxies_dropped_first V then stop_all V (drop_proxies s) else drop_proxies (stop_all V s) in
+      {| orig := orig s1; proxy := None; running := []; toptab := toptab s1; active := false;
+         ns := ns_orig s; ns_orig := ns_orig s; ns_samp := ns_samp s |}
   end.
 
 Definition run (V:variant) (ops:list op) (s:state) : state := fold_left (step V) ops s.
 
-Definition sim_op (o:op) : bool := match o with Begin | Finish => false | _ => true end.
-Definition seg_op (o:op) : bool := match o with Write _ _ _ | Override _ _ _ => true | _ => false end.
+(* what may happen between Begin and Finish; objects created during the run get identities >= n
+   (n = number of objects of the scene) *)
+Definition sim_op (n:nat) (o:op) : bool :=
+  match o with Begin | Finish => false | Create ob _ => Nat.leb n ob | _ => true end.
+Definition not_begin_finish (o:op) : bool := match o with Begin | Finish => false | _ => true end.
+Definition not_start (k:nat) (o:op) : bool := match o with Start k' _ => negb (Nat.eqb k' k) | _ => true end.
+Definition not_create (ob:nat) (o:op) : bool := match o with Create ob' _ => negb (Nat.eqb ob' ob) | _ => true end.
 
-(* value read just before the first override of (o,p) in a scenario's own statements *)
-Fixpoint first_ov (V:variant) (seg:list op) (s:state) (o p:nat) : option Z :=
-  match seg with
+(* value read just before scenario k's first override of (o,p) along a history *)
+Fixpoint first_ov (V:variant) (k:nat) (ops:list op) (s:state) (o p:nat) : option Z :=
+  match ops with
   | [] => None
-  | Override o' p' x :: r =>
-      if Nat.eqb o' o && Nat.eqb p' p then Some (read s o p) else first_ov V r (step V s (Override o' p' x)) o p
-  | a :: r => first_ov V r (step V s a) o p
+  | Override k' o' p' x :: r =>
+      if Nat.eqb k' k && (Nat.eqb o' o && Nat.eqb p' p) then Some (read s o p)
+      else first_ov V k r (step V s (Override k' o' p' x)) o p
+  | a :: r => first_ov V k r (step V s a) o p
   end.
 
-Definition init (v:view) : state := {| orig := v; proxy := None; stack := []; active := false |}.
+Definition init (v:view) (n0 nsamp:nat -> Z) : state :=
+  {| orig := v; proxy := None; running := []; toptab := []; active := false;
+     ns := n0; ns_orig := n0; ns_samp := nsamp |}.
 
-(* finite observation used by the correspondence: values of objects 0..no-1, properties 0..np-1 *)
-Definition observe (v:view) (no np:nat) : list (list Z) :=
-  map (fun o => map (fun p => v o p) (seq 0 np)) (seq 0 no).
-(* run an op list from the scene [v0], reporting the view after every op and the scene at the end *)
+(* finite observation used by the correspondence: values of objects 0..no-1, properties 0..np-1,
+   then one more row: the globals 0..np-1 of the behaviours' namespace *)
+Definition observe_s (v:view) (g:nat -> Z) (no np:nat) : list (list Z) :=
+  map (fun o => map (fun p => v o p) (seq 0 np)) (seq 0 no) ++ [map g (seq 0 np)].
+(* run an op list, reporting what is read after every op and the objects themselves at the end *)
 Fixpoint trace (V:variant) (ops:list op) (s:state) (no np:nat) : list (list (list Z)) :=
   match ops with
-  | [] => [observe (orig s) no np]
-  | o :: r => let s' := step V s o in observe (read s') no np :: trace V r s' no np
+  | [] => [observe_s (orig s) (ns s) no np]
+  | o :: r => let s' := step V s o in observe_s (read s') (ns s') no np :: trace V r s' no np
   end.
